@@ -210,3 +210,18 @@ Lemma pandas_cumcount_refuted :
   exists vals r r', spec_cls mf CWindow "cumcount" vals = Some r /\ agg_pd mf CWindow "cumcount" vals = Some r' /\ svl_eqvb r' r = false.
 Proof. exists [SNum 5], [SNum 1], [SNum 0]. repeat split; reflexivity. Qed.
 End AggTop.
+
+(* ================================================================== the current code: no guard is left for the repaired templates *)
+From DA Require Import Model.ScalarCurrent Proofs.ScalarP4.
+Lemma sql_guard_current d m args : pg_is_nan_guard d m args = true -> sql_guard current d m args = true.
+Proof. unfold pg_is_nan_guard, sql_guard, current. cbn [fix_maxmin fix_trimstr fix_abs_sign orb].
+  destruct (str_in m ["maximum"; "minimum"; "fmax"; "fmin"]); [reflexivity|]. destruct (String.eqb m "trimstr"); [reflexivity|].
+  destruct (str_in m ["abs"; "sign"]); [destruct d; reflexivity|]. intros H; exact H. Qed.
+Theorem sql_supported_documented_current mf mf2 d m lits :
+  In (m, lits) (supported_sql d) ->
+  forall args r, pg_is_nan_guard d m args = true -> spec_method mf mf2 m args = Some r ->
+    exists r', sql_eval mf mf2 current d m lits args = Some r' /\ sv_eqv r' r.
+Proof. intros I args r G H. eapply sql_supported_documented; [exact I | apply sql_guard_current; exact G | exact H]. Qed.
+Lemma pg_is_nan_of_nan_refuted_current mf mf2 :
+  exists args r r', spec_method mf mf2 "is_nan" args = Some r /\ sql_eval mf mf2 current DPg "is_nan" [false] args = Some r' /\ differs r' r.
+Proof. exact (pg_is_nan_of_nan_refuted mf mf2 current). Qed.
